@@ -14,7 +14,8 @@ import subprocess
 import sys
 
 VERIF = os.path.dirname(os.path.dirname(os.path.abspath(__file__)))
-SD = os.path.join(VERIF, "seeded_preserving")
+# VERIF_PRESERVING_DIR=seeded_permitted selects the round-6 set (permitted changes of observable behaviour)
+SD = os.path.join(VERIF, os.environ.get("VERIF_PRESERVING_DIR", "seeded_preserving"))
 
 
 def sh(cmd, **kw):
@@ -81,13 +82,32 @@ def readme():
     for i in ids:
         m = json.load(open(os.path.join(SD, i, "meta.json")))
         ch = m.get("checks", {})
-        loud = [c for c, v in ch.items() if not v.get("silent")]
+        loud = [c for c, v in ch.items() if not v.get("silent") and c not in m.get("expected_alarms", {})]
+        expected = ["%s (%s)" % (c, why) for c, why in m.get("expected_alarms", {}).items()]
         if ch and not loud:
             silent += 1
-        verdict = ("all %d checks silent" % len(ch)) if (ch and not loud) else ("ALARM from: %s" % ", ".join(loud) if ch else "not run")
+        verdict = ("all %d checks silent" % len(ch)) if (ch and not loud and not expected) else (
+            ("all other checks silent; rightly alarming: " + "; ".join(expected)) if (ch and not loud) else (
+                "ALARM from: %s" % ", ".join(loud) if ch else "not run"))
         rows.append("| %s | %s | %s | %s |" % (i, (m.get("summary", "")[:520]).replace("|", "\\|").replace("\n", " "),
                                               verdict, m.get("note", "").replace("|", "\\|")))
     with open(os.path.join(SD, "README.md"), "w") as f:
+        if os.path.basename(SD) == "seeded_permitted":
+            f.write("# Permitted changes of observable behaviour (over-strict-oracle test)\n\n"
+                    "Round 6 asked each sub-agent (property text + scratch worktree only) for a change that alters OBSERVABLE "
+                    "behaviour in a respect its property leaves open, with the property still holding -- and to argue from the "
+                    "words of the statement why. A check of that property which alarms on such a change demands more than the "
+                    "property states. Each was confirmed by hand (its demo holds on both trees and shows the behavioural "
+                    "difference; the suite still gives 404 passed), then all 18 checks were run against it "
+                    "(`VERIF_PRESERVING_DIR=seeded_permitted tools/run_preserving.py <id>`). The agents saw one property only, "
+                    "so a change can be within its own property and still break another one: those alarms are listed as "
+                    "rightly alarming, with the reason.\n\n"
+                    "%d of %d leave every check silent apart from those. The last column says which over-strict oracles "
+                    "each one exposed first.\n\n"
+                    "| id | change | checks | what it exposed in /verif |\n|---|---|---|---|\n" % (silent, len(ids)))
+            f.write("\n".join(rows) + "\n")
+            print("README: %d permitted changes, %d without an unexpected alarm" % (len(ids), silent))
+            return
         f.write("# Behaviour-preserving rewrites (false-alarm test)\n\n"
                 "Round 5 asked each sub-agent (property text + scratch worktree only, nothing from /verif) for a *substantial "
                 "re-implementation* of the mechanism behind its property under which the property still holds: other data "
